@@ -49,4 +49,5 @@
 ;; ghost lastRoundHeight Int
 ;; ghost lastCommitHeight Int
 ;; ghost recvd (Array Int Bool)
+;; ghost alive (Array Int Bool)
 ;; ghost disposed (Array Int Bool)
